@@ -449,3 +449,161 @@ Proof.
     rewrite ?app_nil_r, <- !app_assoc. cbn [app]. reflexivity. }
   rewrite TXT. exact H.
 Qed.
+
+(** * An opening brace inserted in a group: the group's closing brace closes
+    the new group, the enclosing group's closing brace closes the group, and so
+    on outwards through the chain of directly nested groups; the OUTERMOST group
+    of the chain is left without a closing brace and swallows what follows it. *)
+
+(** [late chain l1 l2]: the body of the outermost group of [chain] (a chain of
+    directly nested groups, outermost first, whose innermost body is [l1 ++ l2]
+    with the brace inserted in between) as the faulted text reads: every group
+    but the outermost is closed by the brace of the next one out and so takes in
+    that one's later siblings *)
+Fixpoint late (chain : list frame) (l1 l2 : list item) : list item :=
+  match chain with
+  | FGrp b ws tr a :: rest =>
+      match rest with
+      | FGrp b' ws' _ _ :: _ => b' ++ Grp ws' (late rest l1 l2) tr :: a
+      | _ => l1 ++ Grp [] l2 tr :: a
+      end
+  | _ => l1 ++ l2
+  end.
+
+Definition chain_head (chain : list frame) : list item * str :=
+  match chain with FGrp b ws _ _ :: _ => (b, ws) | _ => ([], []) end.
+
+Lemma late_cons2 b ws tr a b' ws' tr' a' r' l1 l2 :
+  late (FGrp b ws tr a :: FGrp b' ws' tr' a' :: r') l1 l2
+  = b' ++ Grp ws' (late (FGrp b' ws' tr' a' :: r') l1 l2) tr :: a.
+Proof. reflexivity. Qed.
+
+Lemma late_text chain : forallb is_grp chain = true -> chain <> [] -> forall l1 l2,
+  lp_text (lefts chain) ++ unparse_items l1 ++ [123%N] ++ unparse_items l2 ++ rp_text chain
+  = unparse_items (fst (chain_head chain)) ++ snd (chain_head chain) ++ [123%N] ++ unparse_items (late chain l1 l2).
+Proof.
+  induction chain as [|f rest IH]; intros G NE l1 l2; [congruence|].
+  cbn [forallb] in G. apply andb_true_iff in G. destruct G as [GF GR].
+  destruct f as [b ws tr a| |]; try discriminate. cbn [chain_head fst snd].
+  cbn [lefts map left_of rp_text right_text].
+  change (lp_text (LGrp b ws :: map left_of rest)) with (lf_text (LGrp b ws) ++ lp_text (lefts rest)).
+  unfold lf_text. cbn [lf_before lf_ws lf_open]. rewrite <- !app_assoc. f_equal. f_equal. cbn [app]. f_equal.
+  destruct rest as [|f' r'].
+  - cbn [late lefts map lp_text flat_map rp_text app].
+    rewrite unparse_items_app, unparse_items_cons. cbn [unparse_item]. fold (unparse_items l2).
+    rewrite <- !app_assoc. cbn [app]. rewrite <- !app_assoc. reflexivity.
+  - specialize (IH GR ltac:(discriminate) l1 l2).
+    cbn [forallb] in GR. apply andb_true_iff in GR. destruct GR as [GF' _].
+    destruct f' as [b' ws' tr' a'| |]; try discriminate. cbn [chain_head fst snd] in IH.
+    rewrite late_cons2. rewrite unparse_items_app, unparse_items_cons. cbn [unparse_item].
+    fold (unparse_items (late (FGrp b' ws' tr' a' :: r') l1 l2)).
+    transitivity ((lp_text (lefts (FGrp b' ws' tr' a' :: r')) ++ unparse_items l1 ++ [123%N] ++ unparse_items l2
+                   ++ rp_text (FGrp b' ws' tr' a' :: r')) ++ tr ++ 125%N :: unparse_items a).
+    + rewrite <- ?app_assoc. cbn [app]. rewrite <- ?app_assoc. reflexivity.
+    + rewrite IH. rewrite <- ?app_assoc. cbn [app]. rewrite <- ?app_assoc. reflexivity.
+Qed.
+
+Lemma late_ok cx hs chain : forallb is_grp chain = true -> chain <> [] -> forall l1 l2 fh,
+  ok_items cx hs (plug chain (l1 ++ l2)) fh = true ->
+  ok_items cx hs (fst (chain_head chain)) (hd_error (snd (chain_head chain) ++ [123%N])) = true
+  /\ ws_ok (snd (chain_head chain)) = true
+  /\ ok_items cx hs (late chain l1 l2) fh = true.
+Proof.
+  induction chain as [|f rest IH]; intros G NE l1 l2 fh H; [congruence|].
+  cbn [forallb] in G. apply andb_true_iff in G. destruct G as [GF GR].
+  destruct f as [b ws tr a| |]; try discriminate. cbn [chain_head fst snd plug plug_frame] in *.
+  rewrite ok_items_app in H. apply andb_true_iff in H. destruct H as [HB HX].
+  rewrite ok_items_cons in HX. apply andb_true_iff in HX. destruct HX as [HX HA].
+  rewrite ok_item_grp in HX. apply andb_true_iff in HX. destruct HX as [HX OKB].
+  apply andb_true_iff in HX. destruct HX as [W Wt].
+  split; [|split; [exact W|]].
+  - rewrite <- HB. apply (f_equal (ok_items cx hs b)). rewrite unparse_items_cons. cbn [unparse_item].
+    destruct ws; cbn [app hd_error]; reflexivity.
+  - destruct rest as [|f' r'].
+    + cbn [late plug] in *. rewrite ok_items_app in OKB. apply andb_true_iff in OKB. destruct OKB as [O1 O2].
+      rewrite ok_items_app. apply andb_true_iff. split.
+      * eapply ok_items_follow; [exact inertf_123 | exact O1].
+      * rewrite ok_items_cons. apply andb_true_iff. split; [|exact HA].
+        rewrite ok_item_grp, Wt, O2. reflexivity.
+    + destruct (IH GR ltac:(discriminate) l1 l2 _ OKB) as (OB' & W' & OL).
+      cbn [forallb] in GR. apply andb_true_iff in GR. destruct GR as [GF' _].
+      destruct f' as [b' ws' tr' a'| |]; try discriminate. cbn [chain_head fst snd] in OB', W'.
+      rewrite late_cons2. rewrite ok_items_app. apply andb_true_iff. split.
+      * rewrite <- OB'. apply (f_equal (ok_items cx hs b')). rewrite unparse_items_cons. cbn [unparse_item].
+        destruct ws'; cbn [app hd_error]; reflexivity.
+      * rewrite ok_items_cons. apply andb_true_iff. split; [|exact HA].
+        rewrite ok_item_grp, W', Wt, OL. reflexivity.
+Qed.
+
+(** the chain stands at top level: rejected when the input ends, the error is
+    located right after the opening brace of the outermost group of the chain *)
+Theorem fault_open_brace_chain_top cx chain l1 l2 dtr :
+  forallb is_grp chain = true -> chain <> [] ->
+  ok_doc cx (zdoc chain l1 l2 dtr) = true ->
+  let s := zleft chain l1 ++ [123%N] ++ zright chain l2 dtr in
+  let q := length (unparse_items (fst (chain_head chain))) + length (snd (chain_head chain)) + 1 in
+  exists e, parse_top s false cx (walker_state cx) = PErr e (length s) /\ pe_pos e = Some q /\ pe_what e = 6.
+Proof.
+  intros G NE OKD s q. unfold ok_doc, ok_doc_in, zdoc in OKD. cbn [d_items d_trail] in OKD.
+  apply andb_true_iff in OKD. destruct OKD as [OKD Wd].
+  destruct (late_ok cx _ chain G NE l1 l2 _ OKD) as (OB & W & OL).
+  pose proof (late_text chain G NE l1 l2) as ET.
+  destruct (fault_opening cx (fst (chain_head chain)) (snd (chain_head chain)) OBrace (late chain l1 l2) dtr
+              OB W I OL Wd ltac:(discriminate)) as (e & H & P & Wh).
+  cbn zeta in H. cbn [open_text length] in H, P.
+  assert (TXT : s = unparse_items (fst (chain_head chain)) ++ snd (chain_head chain) ++ [123%N]
+                    ++ unparse_items (late chain l1 l2) ++ dtr).
+  { unfold s, zleft, zright.
+    transitivity ((lp_text (lefts chain) ++ unparse_items l1 ++ [123%N] ++ unparse_items l2 ++ rp_text chain) ++ dtr).
+    - rewrite <- !app_assoc. reflexivity.
+    - rewrite ET, <- !app_assoc. reflexivity. }
+  exists e. rewrite TXT. auto.
+Qed.
+
+(** the chain stands in a [\( \)] or [\[ \]] formula ([outer ++ [g]], [g] that
+    formula): the unclosed outermost group runs into the formula's closing
+    delimiter, which is rejected there *)
+Theorem fault_open_brace_chain_math cx outer g chain l1 l2 dtr c :
+  forallb is_grp chain = true -> chain <> [] ->
+  closer_of g = Some c -> c <> SBrace ->
+  ok_doc cx (zdoc ((outer ++ [g]) ++ chain) l1 l2 dtr) = true ->
+  let q := length (lp_text (lefts (outer ++ [g]))) + length (unparse_items (fst (chain_head chain)))
+           + length (snd (chain_head chain)) + 1 + length (unparse_items (late chain l1 l2)) + length (frame_tr g) in
+  exists e,
+    parse_top (zleft ((outer ++ [g]) ++ chain) l1 ++ [123%N] ++ zright ((outer ++ [g]) ++ chain) l2 dtr)
+              false cx (walker_state cx)
+    = PErr e (q + length (stray_text c))
+    /\ pe_pos e = Some q /\ pe_what e = stray_what c.
+Proof.
+  intros G NE CO CB OKD q. destruct (closer_of_text g c CO) as [CT SW].
+  unfold ok_doc, ok_doc_in, zdoc in OKD. cbn [d_items d_trail] in OKD.
+  apply andb_true_iff in OKD. destruct OKD as [OKD _]. rewrite plug_app in OKD.
+  destruct (ok_plug_last cx outer g _ _ _ OKD) as [OKB Wt]. rewrite CT in OKB.
+  destruct (ok_plug cx (outer ++ [g]) _ _ _ OKD) as (OKP & DLb & _).
+  set (hs := lp_state cx (walker_state cx) (lefts (outer ++ [g]))) in *.
+  destruct (late_ok cx hs chain G NE l1 l2 _ OKB) as (OB & W & OL).
+  pose proof (late_text chain G NE l1 l2) as ET.
+  assert (ND : last_dollar (outer ++ [g]) = true ->
+               not_dollar (hd_error (unparse_items (fst (chain_head chain)) ++ snd (chain_head chain) ++ open_text OBrace))).
+  { intros LD. exfalso. clear -LD CO. induction outer as [|f0 r IH].
+    - cbn [app last_dollar] in LD. destruct g as [| ? ? k ? ?|]; try discriminate. destruct k; discriminate.
+    - cbn [app last_dollar] in LD. destruct (r ++ [g]) eqn:E; [destruct r; discriminate|]. apply IH. exact LD. }
+  assert (SO : stray_ok (open_opts (open_state cx hs OBrace) OBrace) c).
+  { destruct c as [|k|x]; [congruence| |exact I]. exact I. }
+  destruct (fault_open_nested cx (lefts (outer ++ [g])) (fst (chain_head chain)) (snd (chain_head chain)) OBrace
+              (late chain l1 l2) (frame_tr g) c (after_text g ++ rp_text outer ++ dtr)
+              (OKP _ ND) OB W I OL Wt SW SO ltac:(discriminate)) as (e & H & P & Wh).
+  cbn zeta in H. cbn [open_text length] in H, P.
+  assert (TXT : zleft ((outer ++ [g]) ++ chain) l1 ++ [123%N] ++ zright ((outer ++ [g]) ++ chain) l2 dtr
+                = lp_text (lefts (outer ++ [g])) ++ unparse_items (fst (chain_head chain)) ++ snd (chain_head chain)
+                  ++ [123%N] ++ unparse_items (late chain l1 l2) ++ frame_tr g ++ stray_text c
+                  ++ after_text g ++ rp_text outer ++ dtr).
+  { unfold zleft, zright. rewrite lefts_app, lp_text_app, rp_text_app, (rp_text_app outer [g]).
+    cbn [rp_text app]. rewrite right_text_split, CT.
+    transitivity (lp_text (lefts (outer ++ [g]))
+                  ++ (lp_text (lefts chain) ++ unparse_items l1 ++ [123%N] ++ unparse_items l2 ++ rp_text chain)
+                  ++ frame_tr g ++ stray_text c ++ after_text g ++ rp_text outer ++ dtr).
+    - rewrite <- !app_assoc. reflexivity.
+    - rewrite ET, <- !app_assoc. reflexivity. }
+  exists e. rewrite TXT. auto.
+Qed.
